@@ -247,6 +247,7 @@ namespace cdsv {
         {
             m_seed = mix64( args().seed ) ^ mix64( std::hash<std::string>()( p.variant ));
             m_supports = A::supports();
+            if ( m_plan.keys > A::max_keys()) { m_plan.keys = A::max_keys(); m_pinned.assign( m_plan.keys, -1 ); }
             for ( auto& f : m_inflight ) f.store( -1 );
         }
 
@@ -322,7 +323,7 @@ namespace cdsv {
                     if ( h.empty()) continue;
                     uint64_t ov = count_overlaps( h );
                     m_ps.overlap_pairs.fetch_add( ov, std::memory_order_relaxed );
-                    if ( ov ) {
+                    if ( ov || ( m_plan.threads == 1 && h.size() >= 3 )) {    // sequential mode: non-trivial = several calls on the key incl. the pinning lookup
                         any_overlap = true;
                         IdNorm nm( 1000 );
                         round_fp = ( round_fp ^ fingerprint( h, nm, k + uint64_t( init[k] == -1 ? 0 : 7 ))) * 1099511628211ull;
